@@ -191,6 +191,10 @@ func RenderTraveler(traveler gdbi.Traveler, template interface{}) interface{} {
 
 // SelectTravelerFields returns a new copy of the traveler with only the selected fields
 func SelectTravelerFields(t gdbi.Traveler, keys ...string) gdbi.Traveler {
+	if t.GetCurrent() == nil {
+		// nothing to select from: travelers without a current element pass through
+		return t
+	}
 	includePaths := []string{}
 	excludePaths := []string{}
 KeyLoop:
